@@ -40,11 +40,31 @@ CLAIMS = {
   "note": "Trusted: regex crate's match-boundary guarantee, htmlescape, str slicing semantics. Not decided: filter texts, stemmers, max_num_chars accounting, the facet tokenizer's text.",
   "technique": "who-may-write-field tables, operand-identity (same SSA root) check between stored offsets and slice operands, panic inventory, value back-trace",
  },
+ "C07": {
+  "text": "Very narrow: decides only the code tables the inverted index format relies on — schema::Type::to_code/from_code read off their MIR (discriminant cast vs. match arms) are mutually inverse on all variants and ALL_TYPES is complete; FIELD_NORMS_TABLE (read as constant data) has 256 strictly increasing entries starting at 0, the precondition of the binary search that quantises field lengths. Posting-list content is not decided by this family.",
+  "note": "Everything value-level about terms, postings, positions and term dictionaries is NOT decided (run-time values; no sound static argument in reach). The must-terminate of the composite files is C01-R3.",
+  "technique": "table agreement between enum definition, encoder and decoder read from MIR; constant-data check",
+ },
+ "C08": {
+  "text": "Very narrow: decides only the columnar format's code tables — CodecType, U128FastFieldCodecType, Cardinality, NumericalType encoder/decoder pairs are mutually inverse; COLUMN_TYPES[i] is the variant with discriminant i for all variants (the source comment 'the order needs to match exactly' turned into a check); ALL_U64_CODEC_TYPES is complete; the columnar CURRENT_VERSION is accepted by the reader. Column values are not decided.",
+  "note": "Codec arithmetic, optional/multivalued indexes, merges and min/max are NOT decided (values).",
+  "technique": "table agreement between enum definition, encoder and decoder read from MIR",
+ },
+ "C09": {
+  "text": "Very narrow: decides only the doc store's code tables — Decompressor::get_id/from_id inverse, Compressor->Decompressor total/injective, DOC_STORE_VERSION is the newest accepted version, and every type code the document serializer writes (base and extended namespace, collected from the constant arguments of write_type_code/serialize_with_type_code) is accepted by the deserializer's decode switch; the type_codes constants are pairwise distinct. Stored values are not decided.",
+  "note": "Skip index, block cache, compression and nested value content are NOT decided (values).",
+  "technique": "table agreement: writer's constant set vs reader's SwitchInt literal set, enum/encoder/decoder agreement",
+ },
+ "C15": {
+  "text": "Very narrow: decides that the ordering precondition of the sstable writer is enforced in release builds — facts are rebuilt with -C debug-assertions=off and Writer::insert_key must still contain a panic guard controlled by common_prefix_len(previous_key, key) that dominates the Ok exit (an assert! turned into debug_assert! passes every test); the fst builder's insert error is propagated; the sstable version written is accepted by the reader. Lookup/stream/merge results are not decided.",
+  "note": "Ordered-map behaviour itself is NOT decided (values). Observation (not a rule): previous_key is cleared at a block flush, so the guard is vacuous for the first key of each block.",
+  "technique": "MIR of a second build configuration (debug assertions off), dominance of a guard switch, constant agreement",
+ },
 }
 NA = {
  "C13": "quantifies over values returned by arbitrary advance/seek programs on stateful iterators; failures are arithmetic; the only structural statement (wrapper forwarding) is not a necessary condition, so no sound static rule is in reach",
  "C14": "aggregation results are run-time numeric values (bucket arithmetic, float sums, sketches); structural parts are already enforced by derive and the compiler",
 }
 # properties not yet claimed (checks under construction) are listed as not applicable *for now*
-for _p, _why in {'C02': 'check under construction in this session (rules designed in DESIGN.md section 4; not yet registered)', 'C03': 'check under construction in this session (rules designed in DESIGN.md section 4; not yet registered)', 'C04': 'check under construction in this session (rules designed in DESIGN.md section 4; not yet registered)', 'C06': 'check under construction in this session (rules designed in DESIGN.md section 4; not yet registered)', 'C07': 'check under construction in this session (rules designed in DESIGN.md section 4; not yet registered)', 'C08': 'check under construction in this session (rules designed in DESIGN.md section 4; not yet registered)', 'C09': 'check under construction in this session (rules designed in DESIGN.md section 4; not yet registered)', 'C12': 'check under construction in this session (rules designed in DESIGN.md section 4; not yet registered)', 'C15': 'check under construction in this session (rules designed in DESIGN.md section 4; not yet registered)', 'C17': 'check under construction in this session (rules designed in DESIGN.md section 4; not yet registered)', }.items():
+for _p, _why in {'C02': 'check under construction in this session (rules designed in DESIGN.md section 4; not yet registered)', 'C03': 'check under construction in this session (rules designed in DESIGN.md section 4; not yet registered)', 'C04': 'check under construction in this session (rules designed in DESIGN.md section 4; not yet registered)', 'C06': 'check under construction in this session (rules designed in DESIGN.md section 4; not yet registered)', 'C12': 'check under construction in this session (rules designed in DESIGN.md section 4; not yet registered)', 'C17': 'check under construction in this session (rules designed in DESIGN.md section 4; not yet registered)', }.items():
     NA[_p] = _why
